@@ -43,6 +43,7 @@ type Val struct {
 	GK    string
 	GV    string
 	Sort  string // sort of S for scalars when T is nil (spec values)
+	DynT  types.Type // interface values: dynamic type when statically known (MakeInterface)
 	Undef bool   // undefined on this path (e.g. result of a call that did not happen): comparisons are unconstrained
 }
 
@@ -599,6 +600,7 @@ type Path struct {
 	trace   []string
 	dead    bool
 	notes   []string
+	elemStores map[string][]Val // values stored into freshly allocated arrays (variadic argument lists)
 }
 
 type lockRef struct {
@@ -612,6 +614,10 @@ func (p *Path) clone(newID int) *Path {
 	q.trace = append([]string(nil), p.trace...)
 	q.notes = append([]string(nil), p.notes...)
 	q.events = append([]Event(nil), p.events...)
+	q.elemStores = make(map[string][]Val, len(p.elemStores))
+	for k, v := range p.elemStores {
+		q.elemStores[k] = v
+	}
 	q.heap = make(map[string]string, len(p.heap))
 	for k, v := range p.heap {
 		q.heap[k] = v
